@@ -143,11 +143,42 @@ theorem validateJobConfig_some_nil (E : Env) (jc : JobConfig) (h : validateJobCo
   split at h
   · cases h
   · rename_i hp
-    simp only [Option.some.injEq] at h
-    unfold validateJobConfigErrs validateJobConfigSpec at h
-    simp only [append_eq_nil] at h
-    obtain ⟨h1, ⟨⟨h2, h3⟩, h4⟩, h5⟩ := h
+    have herrs : validateJobConfigErrs E jc = [] := by
+      by_cases hl : (Facts.valJobConfigScheduleRecheck && (validateJobConfigErrs E jc).length == 0) = true
+      · simp only [Bool.and_eq_true, beq_iff_eq] at hl
+        exact List.length_eq_zero_iff.mp hl.2
+      · simp only [hl, Bool.false_eq_true, ↓reduceIte, Option.some.injEq] at h
+        exact h
+    unfold validateJobConfigErrs validateJobConfigSpec at herrs
+    simp only [append_eq_nil] at herrs
+    obtain ⟨h1, ⟨⟨h2, h3⟩, h4⟩, h5⟩ := herrs
     exact ⟨by simpa using hp, h1, h2, h3, h4, h5⟩
+
+/-- since fix d9dad79 (`Facts.valJobConfigScheduleRecheck`): an admitted JobConfig also passed the
+scheduler-style parse -/
+theorem validateJobConfig_recheck (E : Env) (jc : JobConfig) (hfix : Facts.valJobConfigScheduleRecheck = true)
+    (h : validateJobConfig E jc = some []) :
+    validateCronScheduleForJobConfig E jc "spec.schedule.cron" = some [] := by
+  have herrs : validateJobConfigErrs E jc = [] := by
+    obtain ⟨_, h1, h2, h3, h4, h5⟩ := validateJobConfig_some_nil E jc h
+    unfold validateJobConfigErrs validateJobConfigSpec
+    simp [h1, h2, h3, h4, h5]
+  unfold validateJobConfig at h
+  split at h
+  · cases h
+  · simpa [hfix, herrs] using h
+
+/-- what the scheduler-style parse guarantees for a named JobConfig with a cron schedule -/
+theorem recheck_newExpression_ok (E : Env) (jc : JobConfig) (s : Schedule) (c : CronSchedule)
+    (hs : jc.schedule = some s) (hc : s.cron = some c) (hname : jc.name ≠ "")
+    (h : validateCronScheduleForJobConfig E jc "spec.schedule.cron" = some []) :
+    newExpression E.P (newParserFromConfig E.cfg) jc.key (getExpressions c) = .ok := by
+  unfold validateCronScheduleForJobConfig at h
+  simp only [hs, hc, hname, ↓reduceIte] at h
+  cases hx : newExpression E.P (newParserFromConfig E.cfg) jc.key (getExpressions c) with
+  | ok => rfl
+  | err => rw [hx] at h; simp at h
+  | panic => rw [hx] at h; simp at h
 
 /-! ### scheduler side -/
 
